@@ -57,6 +57,14 @@ impl ManifestPack {
 
         let header =
             reader.parse_block_at::<ManifestPackHeader>(Offset::from(PackHeader::BLOCK_SIZE))?;
+        // The pack descriptions are stored right before the check info. Both values come from
+        // blocks which are valid on their own but may not belong together (damaged file).
+        let pack_infos_size = header.pack_count * Size::from(PackInfo::BLOCK_SIZE);
+        if pack_infos_size.into_u64() > pack_header.check_info_pos.into_u64() {
+            return Err(format_error!(
+                "Pack descriptions are larger than what is stored before the check info"
+            ));
+        }
         let pack_offsets = PackOffsetsIter::new(pack_header.check_info_pos, header.pack_count);
         let mut directory_pack_info = None;
         let mut pack_infos: Vec<PackInfo> = Vec::with_capacity(header.pack_count.into_usize());
